@@ -162,7 +162,17 @@ impl<SystemType : System> CurrentFileStates<SystemType>
     pub fn to_file(&mut self) -> Result<(), CurrentFileStatesError>
     {
         let system = &mut (*self.system_box);
-        match write_file(system, &self.path, &bincode::serialize(&self.inside).unwrap())
+
+        /*  Write to a temporary neighbor and rename it into place, so that an interrupted
+            write never leaves a truncated file behind. */
+        let temp_path = format!("{}.tmp", self.path);
+        match write_file(system, &temp_path, &bincode::serialize(&self.inside).unwrap())
+        {
+            Err(_) => return Err(CurrentFileStatesError::CannotRecordHistoryFile(self.path.to_string())),
+            Ok(_) => {},
+        }
+
+        match system.rename(&temp_path, &self.path)
         {
             Err(_) => Err(CurrentFileStatesError::CannotRecordHistoryFile(self.path.to_string())),
             Ok(_) => Ok(()),
